@@ -68,6 +68,504 @@ def _where(fi, name):
     return None
 
 
+class Undecidable(Exception):
+    pass
+
+
+def _cp(n):
+    """deep copy of a subtree (the loader's parent links are not followed upwards)"""
+    import copy
+    p = getattr(n, '_parent', None)
+    return copy.deepcopy(n, {id(p): None} if p is not None else {})
+
+
+class ValueCase:
+    """A function as it runs when a discriminating variable `var` (a parameter that selects one of several
+    alternatives: an engine type, an optional argument that is None or given) has the value `val`; with `var=None`
+    simply the function's values followed through its definitions.
+
+    * every branch whose condition is a decidable predicate of `var` — an `if`/`elif`/`while` test, a `case` of a
+      `match` on it, a conditional expression, `a or b` / `a and b` used as a value, a look-up in a dict literal keyed
+      by it — is taken the way that value takes it, whatever the spelling of the dispatch; conditions that do not
+      depend on `var` keep both edges; a condition that depends on `var` and cannot be evaluated raises Undecidable
+      (never guessed);
+    * `defs(target)` are the statements storing to `target` that can execute for that value;
+    * `resolve(expr, at)` is `expr` as evaluated at CFG node `at`: locals replaced by their *unique reaching plain
+      definition* on the pruned graph (so a name bound once per branch resolves to the branch this value takes;
+      `a, b = x, y` and `a, b = helper(...)` resolve component-wise), decided conditional expressions and dict
+      dispatches replaced by the selected alternative, and — when an `opener` is given — calls of resolved helpers
+      with a single `return` replaced by the returned expression over the arguments.  Locals that have several
+      reaching definitions stay names and are listed in `unresolved`.
+    * `origin(expr, at)` identifies the binding a value comes from (through plain copies and scalar conversions), so
+      that two expressions can be recognised as the *same value* without comparing their text.
+    """
+
+    OTHER = '\x00any-other-value'
+
+    def __init__(self, fn, var=None, val=None, module_tree=None, opener=None, _depth=0):
+        from ..cfg import CFG
+        self.fn, self.var, self.val = fn, var, val
+        self.module_tree = module_tree
+        self.opener = opener
+        self._depth = _depth
+        self._sub = {}
+        self.g = CFG(fn)
+        self.unresolved = set()
+        self._decided = {}
+        a = fn.args
+        self.params = {p.arg for p in a.posonlyargs + a.args + a.kwonlyargs}
+        self.params |= {x.arg for x in (a.vararg, a.kwarg) if x is not None}
+        self.bound = {n.id: self._bound(n) for n in self.g.nodes}
+        self.locals = {nm for b in self.bound.values() for nm in b}
+        # phase 1: reaching definitions on the whole graph (used to read the branch conditions)
+        self.ins = self._reaching(None)
+        self.live = set(self.ins)
+        # phase 2: prune the decided branches, recompute what reaches what
+        if var is not None:
+            for n in self.g.nodes:
+                if n.id not in self.ins:
+                    continue
+                if n.kind == 'test':
+                    self._decided[n.id] = self._decide(n.stmt.test, n.id)
+                elif n.kind == 'case':
+                    self._decided[n.id] = self._decide_case(n)
+            self.live = self.g._reach(self._edge_ok)
+            self.ins = self._reaching(self._edge_ok)
+
+    # -- graph ------------------------------------------------------------
+    def _edge_ok(self, a, b, lab):
+        d = self._decided.get(a)
+        if d is None or lab not in ('t', 'f'):
+            return True
+        return (lab == 't') == d
+
+    def _bound(self, n):
+        s = n.stmt
+        out = []
+        if s is None:
+            return out
+        heads_ = []
+        if n.kind == 'stmt':
+            if isinstance(s, ast.Assign):
+                for t in s.targets:
+                    out += [x.id for x in ast.walk(t) if isinstance(x, ast.Name) and isinstance(x.ctx, ast.Store)]
+            elif isinstance(s, (ast.AnnAssign, ast.AugAssign)) and isinstance(s.target, ast.Name):
+                if getattr(s, 'value', None) is not None:
+                    out.append(s.target.id)
+            elif isinstance(s, (ast.Import, ast.ImportFrom)):
+                out += [(al.asname or al.name).split('.')[0] for al in s.names]
+            elif isinstance(s, (ast.FunctionDef, ast.AsyncFunctionDef, ast.ClassDef)):
+                out.append(s.name)
+            elif isinstance(s, ast.Delete):
+                out += [t.id for t in s.targets if isinstance(t, ast.Name)]
+            if not isinstance(s, (ast.FunctionDef, ast.AsyncFunctionDef, ast.ClassDef)):
+                heads_ = [s]
+        elif n.kind == 'iter':
+            out += [x.id for x in ast.walk(s.target) if isinstance(x, ast.Name)]
+            heads_ = [s.iter]
+        elif n.kind == 'with':
+            for it in s.items:
+                if it.optional_vars is not None:
+                    out += [x.id for x in ast.walk(it.optional_vars) if isinstance(x, ast.Name)]
+            heads_ = [it.context_expr for it in s.items]
+        elif n.kind == 'case':
+            for x in ast.walk(s.pattern):
+                nm = getattr(x, 'name', None) or getattr(x, 'rest', None)
+                if isinstance(nm, str):
+                    out.append(nm)
+            heads_ = [s.guard] if s.guard is not None else []
+        elif n.kind == 'except':
+            if s.name:
+                out.append(s.name)
+        elif n.kind == 'test':
+            heads_ = [s.test]
+        elif n.kind == 'match':
+            heads_ = [s.subject]
+        for h in heads_:
+            out += [x.target.id for x in walk_no_nested(h) if isinstance(x, ast.NamedExpr)]
+        return out
+
+    def _reaching(self, edge_ok):
+        g = self.g
+        bound = self.bound
+
+        def transfer(n, st):
+            b = bound[n.id]
+            if not b:
+                return st
+            return frozenset(x for x in st if x[0] not in b) | frozenset((nm, n.id) for nm in b)
+
+        init = frozenset((p, g.entry) for p in self.params)
+        ins, _ = g.forward(init, transfer, lambda a, b: a | b, edge_ok=edge_ok)
+        return ins
+
+    def reaching(self, name, at):
+        return sorted(d for nm, d in self.ins.get(at, ()) if nm == name)
+
+    def node_of(self, stmt):
+        """live CFG node of a statement (or of the statement an expression belongs to)"""
+        from ..astutil import stmt_of
+        ids = [i for i in self.g.nodes_of(stmt) if i in self.live]
+        if not ids and not isinstance(stmt, ast.stmt):
+            s = stmt_of(stmt)
+            ids = [i for i in self.g.nodes_of(s) if i in self.live] if s is not None else []
+        return ids[0] if ids else None
+
+    def defs(self, target):
+        """statements `target = ...` (by the target's normalised text) that can run for this value"""
+        out = []
+        for t, st, how in stores_to(self.fn):
+            if norm(t) == target and how in ('assign', 'ann') and self.node_of(st) is not None and st not in out:
+                out.append(st)
+        return out
+
+    # -- conditions -------------------------------------------------------
+    def _depends(self, e):
+        return self.var is not None and any(isinstance(x, ast.Name) and x.id == self.var for x in ast.walk(e))
+
+    def _decide(self, test, at, resolved=False):
+        """True / False when the test is a predicate of `var` that this value decides, None when it does not
+        depend on `var`; Undecidable otherwise."""
+        from ..astutil import eval_pred
+        if self.var is None:
+            return None
+        r = test if resolved else self.resolve(test, at, quiet=True)
+        if isinstance(r, ast.Compare) and all(isinstance(o, (ast.In, ast.NotIn)) for o in r.ops):
+            # membership in a dict literal is membership in its keys
+            r = ast.Compare(r.left, r.ops, [ast.Tuple(list(c.keys), ast.Load()) if isinstance(c, ast.Dict) and None not in c.keys
+                                            else c for c in r.comparators])
+        if not self._depends(r):
+            return None
+        try:
+            return bool(eval_pred(r, {self.var: self.val}))
+        except (ValueError, TypeError):
+            pass
+        # `a or b` / `a and b` with only some operands depending on var: decided only if those operands decide it
+        if isinstance(r, ast.BoolOp):
+            vals = [self._decide(v, at, True) for v in r.values]
+            short = isinstance(r.op, ast.Or)
+            if any(v is short for v in vals):
+                return short
+            if all(v is not None for v in vals):
+                return not short
+            return None
+        if isinstance(r, ast.UnaryOp) and isinstance(r.op, ast.Not):
+            v = self._decide(r.operand, at, True)
+            return None if v is None else not v
+        return self._undecidable(test)
+
+    def _undecidable(self, test):
+        raise Undecidable(f'`{norm(test)[:80]}` depends on {self.var} in a way that is not a comparison with literals')
+
+    def _pattern(self, p, subj):
+        """does literal pattern p match the (known) subject value?"""
+        if isinstance(p, ast.MatchValue) and isinstance(p.value, ast.Constant):
+            return subj == p.value.value
+        if isinstance(p, ast.MatchSingleton):
+            return subj is p.value
+        if isinstance(p, ast.MatchOr):
+            return any(self._pattern(q, subj) for q in p.patterns)
+        if isinstance(p, ast.MatchAs):
+            return True if p.pattern is None else self._pattern(p.pattern, subj)
+        raise Undecidable(f'`case {norm(p)[:60]}` is not a literal pattern')
+
+    def _decide_case(self, n):
+        from ..astutil import eval_pred
+        case = n.stmt
+        m = parent_match(self.fn, case)
+        subj = self.resolve(m.subject, n.id, quiet=True)
+        if not self._depends(subj):
+            return None
+        try:
+            sv = eval_pred(subj, {self.var: self.val})
+        except (ValueError, TypeError):
+            self._undecidable(m.subject)
+        hit = self._pattern(case.pattern, sv)
+        if hit and case.guard is not None:
+            return self._decide(case.guard, n.id)
+        return hit
+
+    # -- values -----------------------------------------------------------
+    def binding(self, name, at):
+        """(value, node, index) of the only definition of local `name` reaching `at`: `name = value` (index None) or
+        the index-th target of `a, name, c = value`"""
+        ds = self.reaching(name, at)
+        if len(ds) != 1 or ds[0] == self.g.entry or self.g.nodes[ds[0]].kind != 'stmt':
+            return None
+        s = self.g.nodes[ds[0]].stmt
+        if isinstance(s, ast.Assign) and len(s.targets) == 1:
+            t = s.targets[0]
+            if isinstance(t, ast.Name) and t.id == name:
+                return s.value, ds[0], None
+            if isinstance(t, (ast.Tuple, ast.List)) and not any(isinstance(e, ast.Starred) for e in t.elts):
+                for i, e in enumerate(t.elts):
+                    if isinstance(e, ast.Name) and e.id == name:
+                        return s.value, ds[0], i
+        if isinstance(s, ast.AnnAssign) and isinstance(s.target, ast.Name) and s.value is not None:
+            return s.value, ds[0], None
+        return None
+
+    def _module_dict(self, name):
+        if self.module_tree is None:
+            return None
+        vals = [s.value for s in self.module_tree.body
+                if isinstance(s, (ast.Assign, ast.AnnAssign)) and getattr(s, 'value', None) is not None
+                and any(isinstance(t, ast.Name) and t.id == name
+                        for t in (s.targets if isinstance(s, ast.Assign) else [s.target]))]
+        return vals[0] if len(vals) == 1 and isinstance(vals[0], ast.Dict) else None
+
+    def _open(self, call):
+        """a call of a resolved helper that has exactly one `return <value>` and no other way out with a value,
+        as the returned expression over the (already resolved) arguments; None when it cannot be opened"""
+        if self.opener is None or self._depth > 3:
+            return None
+        import copy
+        callee = self.opener(call)
+        if callee is None or callee is self.fn or isinstance(callee, ast.AsyncFunctionDef):
+            return None
+        rets = [r for r in walk_no_nested(callee) if isinstance(r, ast.Return)]
+        if len(rets) != 1 or rets[0].value is None or any(isinstance(x, (ast.Yield, ast.YieldFrom)) for x in walk_no_nested(callee)):
+            return None
+        a = callee.args
+        if a.vararg or a.kwarg or any(isinstance(x, ast.Starred) for x in call.args) or any(k.arg is None for k in call.keywords):
+            return None
+        names = [p.arg for p in a.posonlyargs + a.args]
+        bind = {}
+        is_method = isinstance(call.func, ast.Attribute) and names and names[0] in ('self', 'cls')
+        if is_method:
+            bind[names[0]] = call.func.value
+            names = names[1:]
+        if len(call.args) > len(names):
+            return None
+        for p, v in zip(names, call.args):
+            bind[p] = v
+        allowed = set(names) | {p.arg for p in a.kwonlyargs}
+        for k in call.keywords:
+            if k.arg not in allowed or k.arg in bind:
+                return None
+            bind[k.arg] = k.value
+        pos = a.posonlyargs + a.args
+        for p, d in zip(pos[len(pos) - len(a.defaults):], a.defaults):
+            bind.setdefault(p.arg, d)
+        for p, d in zip(a.kwonlyargs, a.kw_defaults):
+            if d is not None:
+                bind.setdefault(p.arg, d)
+        key = id(callee)
+        if key not in self._sub:
+            self._sub[key] = ValueCase(callee, None, None, self.module_tree, self.opener, self._depth + 1)
+        sub = self._sub[key]
+        at = sub.node_of(rets[0])
+        if at is None:
+            return None
+        r = sub.resolve(rets[0].value, at, quiet=True)
+
+        class B(ast.NodeTransformer):
+            def visit_Name(self, n):
+                if n.id in bind:
+                    return _cp(bind[n.id])
+                if n.id in sub.params:
+                    raise Undecidable(f'parameter {n.id} of {callee.name} is not bound by `{norm(call)[:60]}`')
+                if n.id in sub.locals:
+                    return ast.copy_location(ast.Name(f'{callee.name}:{n.id}', ast.Load()), n)
+                return n
+
+            def visit_Lambda(self, n):
+                return n
+        return B().visit(r)
+
+    def resolve(self, e, at, stop=(), quiet=False, depth=0):
+        import copy
+        from ..astutil import eval_pred
+        if depth > 12:
+            return _cp(e)
+        me = self
+
+        def pick(table, key, default, whole):
+            """table[key] / table.get(key, default) with a dict literal and a key this value decides"""
+            if not isinstance(table, ast.Dict) or not me._depends(key) or None in table.keys:
+                return None
+            try:
+                kv = eval_pred(key, {me.var: me.val})
+                keys = [eval_pred(k, {}) for k in table.keys]
+            except (ValueError, TypeError):
+                raise Undecidable(f'`{norm(whole)[:80]}`: look-up by {me.var} with keys that are not literals')
+            for k, v in zip(keys, table.values):
+                if k == kv:
+                    return v
+            if default is not None:
+                return default
+            raise Undecidable(f'`{norm(whole)[:80]}` has no entry for {me.var} = {me.val!r}')
+
+        class R(ast.NodeTransformer):
+            def visit_Name(self, n):
+                if not isinstance(n.ctx, ast.Load) or n.id in stop:
+                    return n
+                ds = me.reaching(n.id, at)
+                if ds == [me.g.entry] or (not ds and n.id in me.params):
+                    return n                      # the parameter itself
+                d = me.binding(n.id, at)
+                if d is not None:
+                    v = me.resolve(d[0], d[1], stop, quiet, depth + 1)
+                    if d[2] is None:
+                        return v
+                    if isinstance(v, (ast.Tuple, ast.List)) and len(v.elts) > d[2] and \
+                            not any(isinstance(x, ast.Starred) for x in v.elts):
+                        return v.elts[d[2]]
+                    return n                      # one component of one value: a symbol
+                if ds:
+                    # one binding that is not an assignment (loop / with target) is one value, kept as a symbol;
+                    # several reaching bindings, or an in-place update, are not one expression
+                    multi = len(ds) > 1 or isinstance(me.g.nodes[ds[0]].stmt, ast.AugAssign)
+                    if multi and not quiet:
+                        me.unresolved.add(n.id)
+                    if n.id == me.var or n.id in me.params:
+                        return ast.copy_location(ast.Name(n.id + ':rebound', ast.Load()), n)
+                    return n
+                md = me._module_dict(n.id)
+                return _cp(md) if md is not None else n
+
+            def visit_IfExp(self, n):
+                d = me._decide(n.test, at)
+                if d is None:
+                    return self.generic_visit(n)
+                return self.visit(n.body if d else n.orelse)
+
+            def visit_BoolOp(self, n):
+                # `a or b` as a value: the first operand that this value makes truthy (falsy for `and`)
+                short = isinstance(n.op, ast.Or)
+                rest = list(n.values)
+                while len(rest) > 1:
+                    d = me._decide(rest[0], at)
+                    if d is None:
+                        break
+                    if d is short:
+                        return self.visit(rest[0])
+                    rest.pop(0)
+                if len(rest) == 1:
+                    return self.visit(rest[0])
+                return ast.copy_location(ast.BoolOp(n.op, [self.visit(v) for v in rest]), n)
+
+            def visit_Subscript(self, n):
+                n = self.generic_visit(n)
+                v = pick(n.value, n.slice, None, n)
+                return v if v is not None else n
+
+            def visit_Call(self, n):
+                n = self.generic_visit(n)
+                if isinstance(n.func, ast.Attribute) and n.func.attr == 'get' and 1 <= len(n.args) <= 2 and not n.keywords:
+                    v = pick(n.func.value, n.args[0], n.args[1] if len(n.args) == 2 else ast.Constant(None), n)
+                    if v is not None:
+                        return v
+                o = me._open(n)
+                return o if o is not None else n
+
+            def visit_Lambda(self, n):
+                return n
+
+        return R().visit(_cp(e))
+
+    CONVERSIONS = ('float', 'float64', 'asarray', 'array', 'asanyarray', 'squeeze', 'atleast_1d')
+    METHOD_CONVERSIONS = ('item', 'to_numpy', 'copy', 'squeeze', 'astype', 'compute', 'load')
+
+    def origin(self, e, at, depth=0):
+        """the binding a value comes from: (function name, CFG node, component) of the definition that computed it,
+        ('param', name) for a parameter; None when `e` is not a (converted) local.  Plain copies `b = a`, scalar
+        conversions (`float(a)`, `a.item()`, `a.values`, `np.asarray(a)`) do not make a new value."""
+        while True:
+            if isinstance(e, ast.Call) and isinstance(e.func, ast.Attribute) and e.func.attr in self.METHOD_CONVERSIONS \
+                    and call_name(e).split('.')[0] not in ('np', 'numpy', 'math'):
+                e = e.func.value
+            elif isinstance(e, ast.Call) and call_name(e).split('.')[-1] in self.CONVERSIONS and len(e.args) >= 1:
+                e = e.args[0]
+            elif isinstance(e, ast.Attribute) and e.attr in ('values', 'data'):
+                e = e.value
+            else:
+                break
+        if not isinstance(e, ast.Name) or depth > 10:
+            return None
+        ds = self.reaching(e.id, at)
+        if ds == [self.g.entry] or (not ds and e.id in self.params):
+            return ('param', e.id)
+        d = self.binding(e.id, at)
+        if d is None:
+            return (self.fn.name, ds[0], None) if len(ds) == 1 else None
+        v, node, idx = d
+        if idx is not None:
+            if isinstance(v, (ast.Tuple, ast.List)) and len(v.elts) > idx:
+                o = self.origin(v.elts[idx], node, depth + 1)
+                return o if o is not None else (self.fn.name, node, idx)
+            return (self.fn.name, node, idx)
+        o = self.origin(v, node, depth + 1)
+        return o if o is not None else (self.fn.name, node, None)
+
+
+def parent_match(fn, case):
+    for x in ast.walk(fn):
+        if isinstance(x, ast.Match) and any(c is case for c in x.cases):
+            return x
+    raise Undecidable('case without match')
+
+
+def unroll_literal_loops(fn):
+    """Copy of `fn` in which a `for x in (a, b, ...)` over a tuple / list display (no `else`, no `break` / `continue`
+    of that loop, `x` a plain name not stored in the body) is replaced by its iterations, and `any(f(x) for x in
+    (a, b))` / `all(...)` over such a display by `f(a) or f(b)` / `f(a) and f(b)`.  Both are the definition of the
+    construct, so every analysis of the copy is an analysis of the function."""
+    import copy
+    fn = _cp(fn)
+
+    def subst(node, name, value):
+        class S(ast.NodeTransformer):
+            def visit_Name(self, n):
+                if n.id == name and isinstance(n.ctx, ast.Load):
+                    return _cp(value)
+                return n
+        return S().visit(_cp(node))
+
+    def loop_exits(body):
+        for st in body:
+            for x in walk_no_nested(st):
+                if isinstance(x, (ast.Break, ast.Continue)):
+                    return True   # conservative: also those of inner loops
+        return False
+
+    class U(ast.NodeTransformer):
+        def visit_For(self, n):
+            self.generic_visit(n)
+            if n.orelse or not isinstance(n.target, ast.Name) or not isinstance(n.iter, (ast.Tuple, ast.List)) \
+                    or any(isinstance(e, ast.Starred) for e in n.iter.elts) or loop_exits(n.body) \
+                    or not all(isinstance(e, (ast.Name, ast.Attribute, ast.Constant)) for e in n.iter.elts):
+                return n
+            x = n.target.id
+            if any(isinstance(y, ast.Name) and y.id == x and isinstance(y.ctx, (ast.Store, ast.Del))
+                   for st in n.body for y in ast.walk(st)):
+                return n
+            out = []
+            for e in n.iter.elts:
+                out += [subst(st, x, e) for st in n.body]
+            return out or [ast.copy_location(ast.Pass(), n)]
+
+        def visit_Call(self, n):
+            self.generic_visit(n)
+            if isinstance(n.func, ast.Name) and n.func.id in ('any', 'all') and len(n.args) == 1 and not n.keywords \
+                    and isinstance(n.args[0], (ast.GeneratorExp, ast.ListComp)) and len(n.args[0].generators) == 1:
+                g = n.args[0].generators[0]
+                if isinstance(g.target, ast.Name) and not g.ifs and not g.is_async and isinstance(g.iter, (ast.Tuple, ast.List)) \
+                        and g.iter.elts and all(isinstance(e, (ast.Name, ast.Attribute, ast.Constant)) for e in g.iter.elts):
+                    vals = [subst(n.args[0].elt, g.target.id, e) for e in g.iter.elts]
+                    if len(vals) == 1:
+                        return ast.copy_location(ast.Call(ast.Name('bool', ast.Load()), vals, []), n)
+                    return ast.copy_location(ast.BoolOp(ast.Or() if n.func.id == 'any' else ast.And(), vals), n)
+            return n
+
+    fn = U().visit(fn)
+    ast.fix_missing_locations(fn)
+    for x in ast.walk(fn):
+        for ch in ast.iter_child_nodes(x):
+            ch._parent = x
+    return fn
+
+
 def rule_isa(ctx):
     prog = ctx.prog
     m = prog.module(ATM)
@@ -417,17 +915,33 @@ def rule_pm(ctx):
     if len(cb) != 1:
         ctx.undecided('C12-R1', sc, 'CBC_i', f'{len(cb)} definitions')
     _cmp(ctx, 'C12-R1', sc, 'SCOPE11 C_BC', cb[0].value, S['C_BC'], {}, stop=('SN',))
-    ks = defs.get('kslm', [])
-    qs = defs.get('Q[mode]', [])
-    for sts, refs, what in ((ks, ('kslm_mtf', 'kslm_tf'), 'k_slm'), (qs, ('Q_mtf', 'Q_tf'), 'Q')):
-        for st in sts:
-            gs = [(norm(t), pol) for t, pol, _ in guards_of(st)]
-            if isinstance(st.value, ast.Constant):
-                continue
-            mtf = ("engine_type == 'MTF'", True) in gs
-            ref = S[refs[0] if mtf else refs[1]]
-            _cmp(ctx, 'C12-R1', sc, f'SCOPE11 {what} ({"MTF" if mtf else "TF"})', st.value, ref, {},
-                 rename={'CBC_i': 'CBC', 'BP_Ratio': 'BPR', 'AFR[mode]': 'AFR'}, stop=('CBC_i', 'AFR'), line=st.lineno)
+    # k_slm and Q have one published formula per engine type.  Which formula the code uses for an engine type is decided
+    # by *running the dispatch for that value* (ValueCase): if/elif/else, guard clauses, match/case, conditional
+    # expressions and dict look-ups keyed by the engine type all select the same way.
+    var = 'engine_type'
+    if var not in sc.params:
+        ctx.undecided('C12-R1', sc, var, 'SCOPE11 no longer takes the engine type as a parameter')
+    n = 0
+    keep = ('CBC_i', 'AFR', 'SN')
+    for val, ki, qi in (('MTF', 'kslm_mtf', 'Q_mtf'), ('TF', 'kslm_tf', 'Q_tf')):
+        try:
+            vc = ValueCase(sc.node, var, val, m2.tree)
+            todo = []
+            for target, ref, what in (('kslm', S[ki], 'k_slm'), ('Q[mode]', S[qi], 'Q')):
+                for st in vc.defs(target):
+                    vc.unresolved = set()
+                    e = vc.resolve(st.value, vc.node_of(st), stop=keep)
+                    if vc.unresolved:
+                        ctx.undecided('C12-R1', sc, f'{target} for {var} == {val!r}',
+                                      f'{sorted(vc.unresolved)} have several definitions reaching `{norm(st)[:60]}`')
+                    todo.append((what, e, ref, st))
+        except Undecidable as ex:
+            ctx.undecided('C12-R1', sc, f'dispatch on {var} == {val!r}', str(ex))
+        for what, e, ref, st in todo:
+            n += 1
+            _cmp(ctx, 'C12-R1', sc, f'SCOPE11 {what} ({val})', e, ref, {},
+                 rename={'CBC_i': 'CBC', 'BP_Ratio': 'BPR', 'AFR[mode]': 'AFR'}, stop=keep, line=st.lineno)
+    ctx.floor('C12-R1/scope11', n, 4, 'SCOPE11 k_slm / Q definitions (one per engine type each)')
     afr = single_def_value(sc.node, 'AFR')
     vals = [a.value for a in afr.args] if isinstance(afr, ast.Call) else None
     ok = vals == S['AFR']
